@@ -101,6 +101,11 @@ afterwards (justified on the model side by C16 `no_deadlock` + `lock_order` + `l
 def k7rand (_ : Tokens) : String := "hung=0 diverged=0"
 def k7storm (_ : Tokens) : String := "hung=0 unanswered=0 stophung=0 stray=0 bad=0 leaks= dbl= uac="
 
+/-- kmutual: two Tflush naming each other's tags, pipelined: both are answered in every trial
+(C06 `no_request_gets_stuck`: a flush never waits for a flush) -/
+def kmutual (t : Tokens) : String :=
+  if (t.get? "trials").isSome then "stuck=0" else "answered=2 handle_returned=1"
+
 /-- k7scen: the regression scenarios state the property's demand directly -/
 def k7scen (t : Tokens) : String :=
   match t.str "name" with
